@@ -18,6 +18,7 @@ INF = "litedram/init.py"
 DFF = "litedram/dfii.py"
 DIF = "litedram/phy/dfi.py"
 UTF = "litedram/phy/utils.py"
+MOF = "litedram/phy/model.py"
 
 
 def M(id, prop, ob, file, old, new, expect="refuted", **kw):
@@ -215,4 +216,14 @@ MUTANTS = [
     M("c18.3-noreg", "C18", "C18.3", UTF, "def __init__(self, clkdiv, clk, i_dw, o_dw, i=None, o=None, reset=None, register=True,", "def __init__(self, clkdiv, clk, i_dw, o_dw, i=None, o=None, reset=None, register=False,"),
     M("c18.4-rd-window", "C18", "C18.4", DIF, "sig_m_window = sig_m[read_delay*out_width:(read_delay + 1)*out_width]", "sig_m_window = sig_m[read_delay*out_width:(read_delay + 1)*out_width - 1]"),
     M("c18.4-valid-cycle", "C18", "C18.4", DIF, "Replicate(sig_m[read_delay], ratio)", "Replicate(sig_m[0], ratio)"),
+    # ---- C19 ----
+    M("c19.1-act-we", "C19", "C19.1", MOF, "self.activate.eq(phase.we_n),\n                self.precharge.eq(~phase.we_n)", "self.activate.eq(~phase.we_n),\n                self.precharge.eq(phase.we_n)"),
+    M("c19.1-no-a10", "C19", "C19.1", MOF, "bank.precharge.eq((phase.bank == nb) | phase.address[10])", "bank.precharge.eq(phase.bank == nb)"),
+    M("c19.1-bank-sel", "C19", "C19.1", MOF, "bank.read.eq(phase.bank == nb),", "bank.read.eq(1),"),
+    M("c19.2-addr", "C19", "C19.2", MOF, "rdaddr.eq((row*ncols | self.read_col)[log2_int(burst_length*nphases):]),", "rdaddr.eq((row*ncols | self.read_col)[log2_int(burst_length):]),"),
+    M("c19.3-mask", "C19", "C19.3", MOF, "Replicate(self.write, data_width//8) & ~self.write_mask", "Replicate(self.write, data_width//8) & self.write_mask"),
+    M("c19.4-read-stage", "C19", "C19.4", MOF, "        for i in range(self.settings.read_latency):\n            new_banks_read      = Signal()", "        for i in range(self.settings.read_latency - 1):\n            new_banks_read      = Signal()"),
+    M("c19.4-write-stage", "C19", "C19.4", MOF, "            for i in range(self.settings.write_latency):", "            for i in range(self.settings.write_latency + 1):"),
+    M("c19.5-rbc", "C19", "C19.5", MOF, "start = (row*nbanks*model_column_size + bank*model_column_size)", "start = (row*nbanks*model_column_size + bank*column_size)"),
+    M("c19.5-memlen", "C19", "C19.5", MOF, "bank_mem_len   = nrows*ncols//(burst_length*nphases)", "bank_mem_len   = nrows*ncols//burst_length"),
 ]
